@@ -70,16 +70,6 @@ UNITS = [
          ["util::find_iter_at_in_context"], timeout=900),
     unit("c10_find_iter_unterminated_second", ["C10", "C19", "C09"], PRINTER, "util::verif_kani",
          "find_iter_at_in_context on an unterminated second line", ["util::find_iter_at_in_context"], timeout=900),
-    unit("c02_linebuffer_step", ["C02"], SEARCHER, "line_buffer::verif_kani",
-         "one LineBuffer::fill (+consume) from an ARBITRARY valid state (4-byte buffer, symbolic contents and positions) with a "
-         "symbolic <=3-byte reader and symbolic read sizes: pending' = pending ++ read, whole lines exposed, offsets consistent",
-         ["LineBuffer::fill", "LineBuffer::roll", "LineBuffer::ensure_capacity", "LineBuffer::consume"], timeout=900),
-    unit("c14_linebuffer_step_quit", ["C14"], SEARCHER, "line_buffer::verif_kani",
-         "one fill from an arbitrary valid state, quit detection: cut at the first binary byte, none exposed, offset recorded",
-         ["LineBuffer::fill"], timeout=900),
-    unit("c14_linebuffer_step_convert", ["C14"], SEARCHER, "line_buffer::verif_kani",
-         "one fill from an arbitrary valid state, convert detection: binary bytes become the terminator, offset recorded",
-         ["LineBuffer::fill", "line_buffer::replace_bytes"], timeout=900),
     unit("c02_linebuffer_stream_cap1", ["C02"], SEARCHER, "line_buffer::verif_kani",
          "LineBuffer fill/consume/roll/grow over a FULLY SYMBOLIC <=4-byte source, symbolic read sizes 1..=2, initial capacity "
          "1 / 3 (eager growth): the exposed stream is exactly the source (no byte lost, duplicated, reordered), final offset = length",
@@ -255,6 +245,27 @@ class ShapeFamily:
         return out
 
 
+class NulFamily(ShapeFamily):
+    """harness fn instantiated per NUL-bearing shape (and its converted twin)"""
+
+    def __init__(self, *a, two=False, **kw):
+        super().__init__(*a, **kw)
+        self.two = two
+
+    def obligations(self, tier):
+        out = []
+        for a, b in SH.nul_shapes():
+            name = "%s__%s" % (self.fn, a.name)
+            shp = (a, b) if self.two else a
+            o = Obl(name, self.props, self.crate, self.module + "::" + name, tier="quick", timeout=self.timeout,
+                    fn=self.fn, shape=a, unwind=self.unwind(a), genfile=self.genfile, interesting=(),
+                    desc=self.desc + " [shape %s = %r]" % (a.name, a.descr()), functions=self.functions,
+                    rules=self.rules, bucket="nul")
+            o.gen_shape = shp
+            out.append(o)
+        return out
+
+
 SLOW_E2E_FUNCS = ("Searcher::search_slice", "SliceByLine::run", "Core::match_by_line",
                   "Core::match_by_line_slow", "Core::before_context_by_line", "Core::sink_matched",
                   "Core::sink_before_context", "Core::sink_after_context", "Core::sink_other_context",
@@ -309,6 +320,21 @@ FAMILIES = [
                 "and symbolic reporting mode (Confirmed/Candidate): returns exactly the first matching line's range",
                 ("Core::find_by_line_fast", "lines::locate", "lines::without_terminator"), timeout=900,
                 rules=searcher_rules(2), shape_filter=lambda sh: sh.nl >= 2),
+    NulFamily("c14_slice_quit", ["C14"], SEARCHER, CORE_MOD, GEN,
+              "slice strategy, quit detection: a NUL in the examined portion => begin, one binary notice at the first NUL, finish; "
+              "no line delivered; symbolic hit table / contexts / invert / numbering",
+              SLOW_E2E_FUNCS + ("Core::detect_binary", "SliceByLine::run"), timeout=900, rules=searcher_rules(2)),
+    NulFamily("c14_slice_convert", ["C14"], SEARCHER, CORE_MOD, GEN,
+              "slice strategy, convert detection: exactly one binary notice, before any line; finish reports the first NUL's offset",
+              SLOW_E2E_FUNCS + ("Core::detect_binary",), timeout=900, rules=searcher_rules(2)),
+    NulFamily("c14_reader_quit", ["C14"], SEARCHER, CORE_MOD, GEN,
+              "reader strategy, quit detection: delivered == search of the input cut at the first NUL (no NUL reaches the sink) + "
+              "one binary notice at that offset; (capacity, read size) in {(1,1),(2,3),(4,2)}",
+              READER_FUNCS + ("ReadByLine::fill", "LineBuffer::fill"), timeout=1200, rules=searcher_rules(2)),
+    NulFamily("c14_reader_convert", ["C14"], SEARCHER, CORE_MOD, GEN,
+              "reader strategy, convert detection: delivered == search of the input with every NUL replaced by the terminator + "
+              "one binary notice at the first NUL",
+              READER_FUNCS + ("line_buffer::replace_bytes",), timeout=1200, rules=searcher_rules(2), two=True),
     ShapeFamily("c02_reader_ctx", ["C02"], SEARCHER, CORE_MOD, GEN,
                 "ReadByLine over LineBufferReader, (capacity, read size) in {(1,1),(2,3),(4,2)} with eager growth "
                 "== grep model (== slice strategy); A,B in 0..=1, invert, line numbers",
@@ -392,7 +418,7 @@ def run_kani(group, ctx):
         gens = {}
         for o in group:
             if o.genfile:
-                gens.setdefault(o.genfile, []).append((o.shape, o.fn, o.unwind))
+                gens.setdefault(o.genfile, []).append((getattr(o, "gen_shape", o.shape), o.fn, o.unwind))
         for gf in GENFILES:
             sc.write_gen(gf, SH.gen_file(gens.get(gf, [])))
         groups = {}
@@ -576,6 +602,13 @@ H_OBLS = [
          "combination (G-SET)",
          ("globset::glob::MatchStrategy::new", "Glob::literal/basename_literal/ext/prefix/suffix/required_ext",
           "Tokens::to_regex_with", "glob::Parser::*", "GlobSet::new", "GlobSet::matches_candidate_into", "*Strategy::matches_into")),
+    HObl("c04_ignore", ["C04"], "ignore", ["I-LINE", "I-FILE"],
+         "per ignore line: the glob ripgrep compiles for it means, for ALL well-formed relative paths up to L bytes over the path "
+         "alphabet, what gitignore(5) says (I-LINE; reference compiled from the line text; witnesses replayed on the real Gitignore "
+         "and on `git check-ignore`); two-line files: last match wins / negation / directory-only on one solver-chosen path per "
+         "satisfiable verdict combination x is_dir, executed on ripgrep and on git (I-FILE)",
+         ("ignore::gitignore::GitignoreBuilder::add_line", "Gitignore::matched", "Gitignore::matched_stripped", "Gitignore::strip",
+          "globset::GlobBuilder::build", "Tokens::to_regex_with")),
     HObl("c01_regex", ["C01"], "regex", ["H-OPTS", "H-LOC", "H-PREFILTER"],
          "per accepted (pattern, options): for ALL lines up to L the compiled pattern means what -i/-S/-w/-x/-F/-e say "
          "(H-OPTS, reference built from the raw pattern); its matches in a buffer are exactly the matches of the stripped "
